@@ -33,6 +33,17 @@ type xl struct {
 	active  map[*types.Func]bool
 	out     *[]Stmt
 	curBody ast.Node // body of the function or closure being translated
+	locks   []*lockFrame
+}
+
+// lockFrame: one open Lock()...Unlock() span.  after collects what runs on an
+// exit path AFTER the lock was released there (`x.Unlock(); return e`): it is
+// placed behind the Sync, outside the lock.
+type lockFrame struct {
+	key      string
+	deferred bool
+	mutex    *path
+	after    []Stmt
 }
 
 type translator struct {
@@ -101,7 +112,7 @@ func (x *xl) stmts(list []ast.Stmt) {
 				if d, ok := list[i+1].(*ast.DeferStmt); ok {
 					if r2, c2, ok := x.mutexCallExpr(d.Call, "Unlock"); ok && types.ExprString(r2) == key {
 						x.t.visited[c2.Pos()] = true
-						x.sync(recv, call, list[i+2:])
+						x.sync(recv, call, list[i+2:], true)
 						return
 					}
 				}
@@ -117,18 +128,32 @@ func (x *xl) stmts(list []ast.Stmt) {
 			if j < 0 {
 				refuse("%s: %s.Lock() without a matching Unlock in the same block", x.p.Pos(s), key)
 			}
-			x.sync(recv, call, list[i+1:j])
+			x.sync(recv, call, list[i+1:j], false)
 			i = j
 			continue
 		}
-		if _, _, ok := x.mutexCall(s, "Unlock"); ok {
-			refuse("%s: Unlock without a preceding Lock in the same block", x.p.Pos(s))
+		if recv, call, ok := x.mutexCall(s, "Unlock"); ok {
+			// release on an exit path: `x.Unlock(); return e` as the last two
+			// statements of a block nested in the span locked on x.  What
+			// precedes stays under the lock; the operands of the return are
+			// evaluated after the release and are placed behind the Sync.
+			key := types.ExprString(recv)
+			if n := len(x.locks); n > 0 && x.locks[n-1].key == key && !x.locks[n-1].deferred && i+2 == len(list) {
+				if ret, ok := list[i+1].(*ast.ReturnStmt); ok {
+					fr := x.locks[n-1]
+					x.t.visited[call.Pos()] = true
+					x.access(At, fr.mutex, call) // Unlock()
+					fr.after = append(fr.after, x.sub(func() { x.stmt(ret) })...)
+					return
+				}
+			}
+			refuse("%s: %s.Unlock() is neither the end of a Lock/Unlock span of this block nor a release directly before a return inside the innermost such span", x.p.Pos(s), key)
 		}
 		x.stmt(s)
 	}
 }
 
-func (x *xl) sync(recv ast.Expr, at ast.Node, body []ast.Stmt) {
+func (x *xl) sync(recv ast.Expr, at ast.Node, body []ast.Stmt, deferred bool) {
 	x.rdPrefix(recv)
 	l := x.lockOf(recv, at)
 	ml := x.mutexLoc(recv)
@@ -149,11 +174,17 @@ func (x *xl) sync(recv ast.Expr, at ast.Node, body []ast.Stmt) {
 			})
 		}
 	}
+	fr := &lockFrame{key: types.ExprString(recv), deferred: deferred, mutex: ml}
+	x.locks = append(x.locks, fr)
 	inner := x.sub(func() {
 		x.stmts(body)
 		x.access(At, ml, at) // Unlock()
 	})
+	x.locks = x.locks[:len(x.locks)-1]
 	*x.out = append(*x.out, Stmt{Kind: SSync, Lock: l, Body: inner})
+	// exit paths that released the lock themselves: a thread may skip the rest
+	// of the Sync body, leave it (release) and run these, then skip the rest
+	*x.out = append(*x.out, fr.after...)
 }
 
 func rootIdent(e ast.Expr) *ast.Ident {
@@ -760,7 +791,7 @@ func (x *xl) call(c *ast.CallExpr) {
 		case ok && b.lit != nil:
 			x.closure(b.lit, c.Args, true)
 		case ok && b.ext:
-			x.args(c.Args)
+			x.argsOpaque(c.Args)
 		default:
 			refuse("%s: call through the function value %s, which is not bound to a known function", x.p.Pos(c), types.ExprString(fun))
 		}
@@ -802,7 +833,7 @@ func (x *xl) call(c *ast.CallExpr) {
 			tn := typeName(rt)
 			if connIfaces[tn] || connIfaces[rt.String()] {
 				x.rdPrefix(recv)
-				x.args(c.Args)
+				x.argsOpaque(c.Args)
 				if l := x.loc(recv); l != nil {
 					q := l.with(step{kind: 'f', name: "wire", owner: "wpg.Conn", typ: types.Typ[types.Int]})
 					x.access(Wr, q, c)
@@ -842,14 +873,14 @@ func (x *xl) call(c *ast.CallExpr) {
 					x.whole(Wr, x.base(recv), rt, c, 0)
 				}
 			}
-			x.args(c.Args)
+			x.argsOpaque(c.Args)
 			return
 		}
 		if _, ok := opaquePkgs[short(pkgPath)]; ok {
 			if recv != nil {
 				x.rd(recv)
 			}
-			x.args(c.Args)
+			x.argsOpaque(c.Args)
 			return
 		}
 		// translate the callee in place
@@ -872,16 +903,23 @@ func (x *xl) call(c *ast.CallExpr) {
 	if recv != nil {
 		x.rd(recv)
 	}
-	x.args(c.Args)
+	x.argsOpaque(c.Args)
 	if i, ok := extWrites[full]; ok && i < len(c.Args) {
 		x.elems(Wr, c.Args[i], c)
 		x.elems(Rd, c.Args[i], c)
 	}
 }
 
-// args evaluates call arguments; a pointer to a module struct handed to code
-// the translator does not see is read as a whole, callbacks may run.
+// args evaluates call arguments.
 func (x *xl) args(args []ast.Expr) {
+	for _, a := range args {
+		x.rd(a)
+	}
+}
+
+// argsOpaque: arguments of a call into code the translator does not see: a
+// pointer to a module struct handed to it is read as a whole.
+func (x *xl) argsOpaque(args []ast.Expr) {
 	for _, a := range args {
 		x.rd(a)
 		t := x.p.typeOf(a)
